@@ -11,8 +11,8 @@ CHECKS = {
 }
 CHECKS.update({
  "C01": dict(cat="model_checking", ref="5/C01",
-   text="Explicit-state search over write/merge histories of 2-3 writers for all three store types, with an observer replica that receives heads by manual sync, topic message and direct-channel payload (including arbitrary single entries and concurrent pairs in both list orders), restarts with load from the cache, and snapshot save/reload. In every state every replica is compared differentially (same entry set => identical ordered list, heads and view as the first path that reached that set) and against the (time, writer) reference order and its replay.",
-   note="Trusted: sim environment, quiescence detection; fetch completion order within one announcement is scheduler-chosen in the ungated units. Bounds in evidence (writers, depth, routes).",
+   text="Explicit-state search over write/merge histories of 2-3 writers for all three store types, with an observer replica that receives heads by manual sync, topic message and direct-channel payload (including arbitrary single entries and concurrent pairs in both list orders), restarts with load from the cache, and snapshot save/reload; gated-merge units enumerate the release orders of a merging replica's block fetches with a local write and a duplicate announcement in flight. In every state every replica is compared differentially (same entry set => identical ordered list, heads and view as the first path that reached that set) and against the (time, writer) reference order and its replay.",
+   note="Trusted: sim environment, quiescence detection; fetch completion order within one announcement is scheduler-chosen in the ungated units and enumerated (deviation-bounded) in the gated-merge units. Bounds in evidence (writers, depth, routes).",
    tech="explicit-state DFS by replay over the real implementation with differential + reference-model oracle"),
  "C07": dict(cat="model_checking", ref="5/C07",
    text="Explicit-state search of the real document store: all sequences of Put/PutAll/PutBatch/Delete on overlapping mixed-case keys by 1-3 writers with interleaved merges; after every step Get (8 search keys x 4 option combinations) and Query (4 predicates) must equal the matching documents of the last-writer-wins replay in which a batch member counts as a put; Delete of an absent key must be refused.",
@@ -35,7 +35,7 @@ CHECKS.update({
    note="Trusted: sim environment (atomic durable cache puts); interleaving points are the H4 hooks, code between them runs freely.",
    tech="stateless model checking: exhaustive / deviation-bounded schedule enumeration of the real write path under a cooperative scheduler at hooked points"),
  "C03": dict(cat="exploration", ref="5/C03",
-   text="Exhaustive enumeration of a finite case family on fresh worlds: write list x controller x route (local write, sync, topic, direct channel, ancestor behind an authorised colluder) x forging mode (five ways of faking the author fields, built from raw entry structs and signed with the attacker's keys) x position among honest heads. The forged entry must be absent from every victim log and view; the local write must fail and change nothing.",
+   text="Exhaustive enumeration of a finite case family on fresh worlds: write list x controller (ipfs; simple and orbitdb via manifest; simple via the store constructor) x route (local write, sync, topic, direct channel, ancestor behind an authorised colluder) x forging mode (five ways of faking the author fields, built from raw entry structs and signed with the attacker's keys) x position among honest heads. The forged entry must be absent from every victim log and view; the local write must fail and change nothing.",
    note="Trusted: sim environment; which entries are genuinely authored is known by construction of each forging mode. Controllers with which no database can be built through the public API (simple via manifest, orbitdb) are recorded as skipped.",
    tech="exhaustive enumeration of a finite adversarial input family against the real implementation (bounded exploration, no sampling)"),
  "C10": dict(cat="model_checking", ref="5/C10",
@@ -43,7 +43,7 @@ CHECKS.update({
    note="Trusted: sim environment; fetches are the only interleaving points (each is a gate). Deviation bound 2 in quick, unbounded in thorough.",
    tech="stateless schedule enumeration (fetch completion orders) of the real replication path under gated environment calls"),
  "C11": dict(cat="model_checking", ref="5/C11",
-   text="A scripted sequence of Sync requests (1-2 cancellable, then a final uncancelled one) on a replica with replication concurrency 1, 2 and default; every block fetch and the replicator's schedule points are gated; all executions with a bounded number of deviations (cancel at this step, issue next request early, fail a fetch, release another goroutine first) run to quiescence; all entries reachable from the final heads must then be visible.",
+   text="A scripted sequence of Sync requests (1-2 cancellable, then a final uncancelled one) on a replica with replication concurrency 1, 2 and default; every block fetch and the replicator's schedule points are gated; all executions with a bounded number of deviations (cancel at this step, issue next request early, fail a fetch, release another goroutine first) run to quiescence; all entries reachable from the final heads must then be visible. A second family reopens a replica with a persisted log and runs Load(ctx) with every block read gated, cancels it at any step, then runs an uncancelled Load.",
    note="Trusted: sim environment; hooks H2. One residual class is a recorded known finding (final request overlapping a not-yet-settled aborted request).",
    tech="stateless deviation-bounded schedule enumeration with cancellation and fault injection at hooked schedule points"),
  "C02": dict(cat="model_checking", ref="5/C02",
@@ -51,7 +51,7 @@ CHECKS.update({
    note="Trusted: sim network semantics (fetch succeeds iff a linked peer holds the block; reconnection makes both sides see a join). Final phase uses canonical delivery order.",
    tech="explicit-state DFS by replay over the real implementation with fault actions and a final-phase convergence oracle from every state"),
  "C09": dict(cat="model_checking", ref="5/C09",
-   text="Explicit-state search over an instance holding 2-4 databases on its shared event bus plus a remote writer: write, load, remote write and message delivery in every order up to the depth bound; after every action every database not named by the action must be unchanged (entries, heads, view, cached heads, replication status, emitted events) and every message and store event must carry only its own database's address and entries.",
+   text="Explicit-state search over an instance holding 2-4 databases on its shared event bus plus a remote writer: write, load, remote write, direct-channel head exchange and message delivery in every order up to the depth bound, including databases that share a name and gated (parked) announcements; after every action every database not named by the action must be unchanged (entries, heads, view, cached heads, replication status, emitted events) and every message and store event must carry only its own database's address and entries.",
    note="Trusted: sim environment; the instance bus is the real libp2p bus wrapped only for observation.",
    tech="explicit-state DFS by replay over the real implementation with frame-condition (non-interference) oracle at every step"),
  "C05": dict(cat="model_checking", ref="5/C05",
@@ -59,7 +59,7 @@ CHECKS.update({
    note="Trusted: each effect is atomic and durable on return (property's assumption); effects are observed at the simulated cache/keystore/blockstore seams. On-disk part covers clean shutdowns only.",
    tech="exhaustive crash-point enumeration (every prefix of the persistence-effect log of every explored history) with recovery on the real implementation"),
  "C18": dict(cat="exploration", ref="5/C18",
-   text="Exhaustive cross product on fresh worlds: store type x moment (idle, in-flight write parked at each of 6 points, in-flight replication parked at each of 5 points, in-flight Load parked in a fetch) x injection (Close, Close twice, instance Close, instance Close twice, Drop, Close then Drop) x with/without sibling database; then everything parked is released and every operation is issued on the closed object. State-based oracle at quiescence: all calls returned, no panic (worker crash attribution), surviving go-orbit-db goroutines equal the pre-open baseline, reopen+load yields all acknowledged data, Drop scoped to one database.",
+   text="Exhaustive cross product on fresh worlds: store type x moment (idle, in-flight write parked at each of 6 points, in-flight replication parked at each of 5 points, in-flight Load parked in a fetch) x injection (Close, Close twice, instance Close, instance Close twice, Drop, Close then Drop, Close + reopen + stale Close + instance Close) x with/without sibling database; then everything parked is released and every operation is issued on the closed object. State-based oracle at quiescence: all calls returned, no panic (worker crash attribution), surviving go-orbit-db goroutines equal the pre-open baseline, reopen+load yields all acknowledged data, Drop scoped to one database.",
    note="Trusted: sim environment, goroutine-status quiescence, attribution of goroutines by stack frames. The moment of the injection is controlled by gates/hooks; what runs after the release is scheduler-chosen.",
    tech="exhaustive enumeration of injection points (gated environment calls and hooked schedule points) x injections against the real implementation, state-based hang/leak detection"),
  "C15": dict(cat="exploration", ref="5/C15",
@@ -83,8 +83,8 @@ CHECKS.update({
    note="Trusted: sim environment (content-addressed blocks shared between peers). Restricted to inputs Create accepts.",
    tech="exhaustive enumeration of a finite input family against the real implementation with pairwise comparison over the whole set"),
  "C20": dict(cat="exploration", ref="5/C20",
-   text="The three bundled adapters that can be driven without real network timers are exercised over scripted doubles: every sequence of <= 3/4 membership snapshots (sets in every list order) through the stepped poll loop of pubsubcoreapi; every message sequence of length <= 3 over 3 senders x 3 payload sizes through the topic adapter and the one-on-one monitor; channel-name symmetry and distinctness for all ordered pairs of 5 peers; direct-channel frames for 10 boundary sizes and all 6 interleavings of two senders.",
-   note="Trusted: scripted PubSub API and in-memory host/stream doubles. pubsubraw is not covered (real libp2p pubsub, own timers); oneonone sequences are limited by the adapter's fixed one-second connect wait.",
+   text="The three bundled adapters that can be driven without real network timers are exercised over scripted doubles (pubsubraw additionally over real in-memory libp2p hosts with receipt-based waiting): every sequence of <= 3/4 membership snapshots (sets in every list order) through the stepped poll loop of pubsubcoreapi; every message sequence of length <= 3 over 3 senders x 3 payload sizes through the topic adapter and the one-on-one monitor; channel-name symmetry and distinctness for all ordered pairs of 5 peers; direct-channel frames for 10 boundary sizes and all 6 interleavings of two senders.",
+   note="Trusted: scripted PubSub API and in-memory host/stream doubles. pubsubraw's internal timers are not owned: that sub-check enumerates inputs only and ends inconclusive (no alarm) when the library does not deliver in time; oneonone sequences are limited by the adapter's fixed one-second connect wait.",
    tech="exhaustive enumeration of finite input/snapshot sequences against the real adapters over scripted environment doubles"),
 })
 NOT_APPLICABLE = []
